@@ -101,6 +101,10 @@ def parsePolicy (s : String) : Policy :=
         else if c == "f" then Resp.fail r.toNat! else Resp.accept 0 }
     | _ => p) {}
 
+/-- no fault, no cap, no interruption, no script: every `write` takes the whole buffer -/
+def Policy.reliable (p : Policy) : Bool :=
+  p.failAt.isNone && p.zeroAt.isNone && p.cap.isNone && p.intr.isEmpty && p.script.isEmpty
+
 structure PSinkState where
   off : Nat := 0
   fired : List Nat := []
@@ -241,7 +245,13 @@ def runPWith (c : PCase) (cfg : Config) (ops : List (List String)) : PObs := Id.
       let (_, out0, _) := m.finishStats deliverAll
       let chunks := if m.finished then [] else out0.chunks
       let fuel := (chunks.map (·.length)).sum + chunks.length + c.policy.script.length + c.policy.intr.length + 4
-      let (sink', wr, cnt) := writeChunks respond fuel sink chunks 0
+      -- a reliable sink takes every chunk whole (C13_reliable_sink): one append instead of one per
+      -- chunk — `got ++ chunk` per sample is quadratic in the file size on 20000-frame histories
+      let total := (chunks.map (·.length)).sum
+      let (sink', wr, cnt) :=
+        if c.policy.reliable then
+          (({ st := { sink.st with off := sink.st.off + total }, got := sink.got ++ chunks.flatten } : Sink PSinkState), Except.ok (), total)
+        else writeChunks respond fuel sink chunks 0
       sink := sink'
       let (m', _, r) := if withStats then m.finishStats (fun _ => (wr, cnt)) else m.finish (fun _ => (wr, cnt))
       m := m'; reply := r
